@@ -90,6 +90,13 @@ CHECKS.update({
                 note='Trusted: reference codec for decoding SETUP; virtual clock.'),
 })
 
+CHECKS.update({
+    'C17': dict(engine='simnet', level='fault_enumeration', design='3/C17',
+                technique='fault-sequence property testing: generated sequences of connection endings (EOF, transport error, keepalive timeout via a silent server, explicit reconnect) and reconnect triggers over successive simulated transports, with probes after each reconnect',
+                text='1-4 consecutive reconnects with pending interactions and requests issued while reconnecting; per reconnect: old transport closed, pending failed, fresh SETUP first, ids restart at 1, keepalives at period P, probes served.',
+                note='Trusted: transport provider / fresh real server per connection; a silent server is a link that drops what is written.'),
+})
+
 NOT_YET = {}
 
 
